@@ -12,7 +12,9 @@ import ast
 
 
 def _strip_doc(stmts):
-    return [s for s in stmts if not (isinstance(s, ast.Expr) and isinstance(s.value, ast.Constant) and isinstance(s.value.value, str))]
+    from .loader import is_noise
+
+    return [s for s in stmts if not is_noise(s) or isinstance(s, ast.Pass)]
 
 
 class _Alpha(ast.NodeTransformer):
